@@ -379,6 +379,10 @@ class Ctx:
                 hit.setdefault(f["class"], f)
         for cls in sorted(hit):
             print("KNOWN-FINDING: property=%s %s [%s]" % (self.prop, known[cls]["what"], cls), flush=True)
+        # a listed finding this run did not meet (an intermittent race, a class only the thorough tier reaches) is
+        # still listed: say so, so that the output names every finding the file holds
+        for cls in sorted(set(known) - set(hit)):
+            print("KNOWN-FINDING: property=%s %s [%s] (listed; not observed in this run)" % (self.prop, known[cls]["what"], cls), flush=True)
         violation = None
         if unknown:
             violation = {"kind": "failing-input", "property": self.prop, "seed": self.seed, "tier": self.tier,
